@@ -490,7 +490,7 @@ static void c16_type(Context& cx)
                         }
                         run_eq<T>(cx, tg, x, y);
                     }
-                    RC_ASSERT(ok);
+                    RC_ASSERT(ok || cx.termination_only);
                 },
                 md, params);
         }
@@ -561,6 +561,7 @@ int main(int argc, char** argv)
     cx.opt = parse_options(argc, argv);
     g_ctx() = &cx;
     install_crash_handlers();
+    cx.termination_only = cx.opt.prop == "C14" && cx.opt.replay.empty(); // C14 stage: execute everything, report only calls that do not return
     g_targets = load_targets(cx.opt, "cplx");
     if (!cx.opt.replay.empty())
     {
